@@ -346,14 +346,99 @@ def tempo_change_cmd(rng):
     return name + rng.choice(["(80+1)", "(A,120,!4)", "(80,120,!4+1)", "(Tempo,90,!2)"])
 
 
+HEX_BYTES = ["00", "01", "7f", "7F", "80", "ff", "f0", "F0", "f7", "F7", "41", "10", "42", "12", "40", "100", "1ff", "0", "a", "-1", "-2", "$10", "0x7f", "", "g", "0xF0"]
+DEC_BYTES = ["0", "1", "127", "128", "255", "256", "240", "247", "$f0", "$F7", "$41", "16", "0x10", "", "-1", "300", "65535"]
+GS_NAMES = ["GSReverbMacro", "GSReverbCharacter", "GSReverbPRE_LPE", "GSReverbLevel", "GSReverbTime", "GSReverbFeedback", "GSReverbSendToChorus",
+            "GSChorusMacro", "GSChorusPRE_LPF", "GSChorusLevel", "GSChorusFeedback", "GSChorusDelay", "GSChorusRate", "GSChorusDepth",
+            "GSChorusSendToReverb", "GSChorusSendToDelay", "GS_RHYTHM"]
+
+
+def sysex_cmd(rng):
+    name = rng.choice(["SysEx", "SysEx", "SysEx", "PlayFrom.SysEx"])
+    hexm = rng.random() < 0.6
+    pool = HEX_BYTES if hexm else DEC_BYTES
+    n = rng.choice([0, 1, 2, 3, 5, 8, 8, 11, 20])
+    vals = [rng.choice(pool) for _ in range(n)]
+    k = rng.random()
+    if n >= 2 and k < 0.55:
+        # one or two checksum groups, sometimes unbalanced
+        i = rng.randrange(0, n)
+        j = rng.randrange(i, n)
+        vals[i] = "{" + rng.choice(["", "", " "]) + vals[i]
+        if rng.random() < 0.85:
+            vals[j] = vals[j] + rng.choice(["", "", " "]) + "}"
+        if rng.random() < 0.2 and j + 1 < n:
+            vals[j + 1] = "{" + vals[j + 1]
+            vals[-1] = vals[-1] + "}"
+    if rng.random() < 0.3 and n >= 1:
+        vals[0] = rng.choice(["f0", "F0"]) if hexm else rng.choice(["240", "$f0"])
+        if rng.random() < 0.7:
+            vals[-1] = vals[-1][:1].replace("{", "{") and (("f7" if hexm else "247") + ("}" if vals[-1].endswith("}") else ""))
+    sep = rng.choice([",", ",", ", ", " ,", " , "])
+    body = sep.join(vals)
+    if rng.random() < 0.05:
+        body += rng.choice([",", ",,", " X", ",A,1", "}", "{"])
+    return name + ("$" if hexm else "") + rng.choice(["=", "=", "=", " =", "", "= "]) + body + rng.choice([";", " ", "\n", ""])
+
+
+def reset_cmd(rng):
+    return rng.choice(["ResetGM", "ResetGS", "ResetXG"]) + rng.choice([";", ";", "\n", "()", "(0)", "(1)", " ;", "=1;", "(1,2)", "(", " 5 "])
+
+
+def sysex_command_cmd(rng):
+    k = rng.random()
+    if k < 0.5:
+        return "MasterVolume" + arg_form(rng, rng.choice(BYTE_VALUES + ["100", "64"]))
+    if k < 0.9:
+        return "MasterBalance" + arg_form(rng, rng.choice(["0", "1", "-1", "8191", "8192", "-8192", "-8193", "64", "127", "128", "16383", "16384", "$2000", "100000", "-100000"]))
+    return rng.choice(["MasterVolume", "MasterBalance"]) + rng.choice([";", "()", "(,)", "(1,2)", "=;"])
+
+
+def gs_cmd(rng):
+    k = rng.random()
+    if k < 0.45:
+        return rng.choice(GS_NAMES) + arg_form(rng, rng.choice(BYTE_VALUES))
+    if k < 0.60:
+        return "GSEffect" + arg_form(rng, rng.choice(["$30", "$31", "0", "1", "127", "128", "255", "256", "-1"]) + rng.choice([",", ", "]) + rng.choice(BYTE_VALUES), eq=False)
+    if k < 0.70:
+        return "GSEffect" + rng.choice(["(5)", "()", ";", "(1,2,3)", "(,7)"])
+    if k < 0.90:
+        n = rng.choice([12, 12, 12, 11, 13, 1, 0, 24])
+        return "GSScaleTuning" + arg_form(rng, ",".join(rng.choice(["0", "64", "-64", "1", "127", "128", "-1", "10", "255", "256"]) for _ in range(n)), eq=False)
+    if k < 0.96:
+        return rng.choice(GS_NAMES) + rng.choice([";", "()", "(,)", "(1,2)", "=;"])
+    return rng.choice(["CH(10) ", "CH(9) ", "CH(11) ", "CH(16) ", "CH(1) "]) + "GS_RHYTHM" + arg_form(rng, rng.choice(["0", "1", "2", "3", "255"]))
+
+
+def device_cmd(rng):
+    return "DeviceNumber" + arg_form(rng, rng.choice(["$10", "$11", "16", "17", "0", "127", "128", "255", "256", "-1", "", "1,2"])) + " " + \
+        rng.choice([reset_cmd(rng), gs_cmd(rng), "ResetGS;", "ResetXG;", "GSReverbMacro(1)"])
+
+
+def misc_noop_cmd(rng):
+    return rng.choice(["q2Add(3)", "System.q2Add=5;", "q2Add;", "SoundType({pico})", "SoundType=1;", 'SoundType("sc88")', "SoundType;"])
+
+
 def sys_cmd(rng):
     """one command of the families the pipeline model gained last"""
     k = rng.random()
-    if k < 0.4:
+    if k < 0.22:
         return meta_cmd(rng)
-    if k < 0.6:
+    if k < 0.32:
         return port_cmd(rng)
-    return tempo_change_cmd(rng)
+    if k < 0.47:
+        return tempo_change_cmd(rng)
+    if k < 0.67:
+        return sysex_cmd(rng)
+    if k < 0.74:
+        return reset_cmd(rng)
+    if k < 0.82:
+        return sysex_command_cmd(rng)
+    if k < 0.93:
+        return gs_cmd(rng)
+    if k < 0.98:
+        return device_cmd(rng)
+    return misc_noop_cmd(rng)
 
 
 def pipe_program(rng, size=None):
